@@ -280,8 +280,12 @@ def zt_escape(octets, quoted, r):
 
 def zt_name(r, labels):
     alphabet = "abcdefghijklmnopqrstuvwxyz0123456789-_"
-    return [r.choice("abcdefghijklmnopqrstuvwxyz") + "".join(r.choice(alphabet) for _ in range(r.choice([0, 1, 2, 4, 7])))
-            for _ in range(labels)]
+    out = [r.choice("abcdefghijklmnopqrstuvwxyz") + "".join(r.choice(alphabet) for _ in range(r.choice([0, 1, 2, 4, 7])))
+           for _ in range(labels)]
+    # a label spelled like the class mnemonic in another case: an owner name, not a class (only "IN" is the class)
+    if out and r.random() < 0.08:
+        out[0] = "in"
+    return out
 
 
 def zt_render_name(r, name, origin):
